@@ -91,3 +91,17 @@ package p2pkeswarm
 //@   trusted
 //@   pure
 //@   ensures true
+
+// the peer identity is the SHAKE-256 hash of the canonical (re-marshalled) key, nothing else
+//@ func DefaultFingerprinter
+//@   noframe
+//@   requires pub != nil
+//@   ghostvar shake = false
+//@   ghostvar canonical = false
+//@   ensures [samehash] ghost(shake) && ghost(canonical)
+//@   after call MarshalPublicKey:
+//@     set canonical = true
+//@   before call ShakeSum256:
+//@     assert [ofkey] ghost(canonical) && arg1 == out
+//@   after call ShakeSum256:
+//@     set shake = true
